@@ -373,6 +373,25 @@ func mentionsAllocFrontier(t *Term) bool {
 	return r
 }
 
+// isTypeFactForall: a quantified type fact produced by closeFacts (its bound
+// variable carries the canonical tf!k name).
+func isTypeFactForall(t *Term) bool {
+	return t.Op == "forall" && len(t.Bound) == 1 && strings.HasPrefix(t.Bound[0].Name, "tf!k")
+}
+
+// arraySyms collects the names of the array-sorted variables of t.
+func arraySyms(t *Term, out map[string]bool) {
+	if t.Op == "var" {
+		if t.S != nil && t.S.Kind == SArr {
+			out[t.Name] = true
+		}
+		return
+	}
+	for _, a := range t.Args {
+		arraySyms(a, out)
+	}
+}
+
 // dropAllocConjuncts removes the conjuncts of t that mention the allocation
 // frontier (nil when nothing is left).
 func dropAllocConjuncts(t *Term) *Term {
